@@ -75,7 +75,11 @@ Section Match.
   Definition kind_ok (k : mkind) (t : val) : bool :=
     match k with
     | KIdent => match t with Ptr tp _ => N.eqb tp T_P_ast_Ident | _ => false end    (* a nil *ast.Ident is no identifier *)
-    | KExpr => implements (dyn_type t) T_ast_Expr
+    | KExpr =>
+        (* whatever implements ast.Expr, except what is no expression: the "key: value" of a composite
+           literal and the "..." of [...]T and ...T (repo fix 63c8bdb) *)
+        implements (dyn_type t) T_ast_Expr
+        && negb (N.eqb (dyn_type t) T_P_ast_KeyValueExpr) && negb (N.eqb (dyn_type t) T_P_ast_Ellipsis)
     end.
 
   (* "for ... {" : a *ast.ForStmt whose Cond is a dots and that has no Init/Post *)
